@@ -34,6 +34,7 @@ type Config struct {
 	SampleEvery int // ask for a model of every k-th OK path (native cross-validation)
 	SolverLog   string
 	StopOnFirst bool // stop exploring after the first candidate counterexample
+	RunCmdInits bool // interpret the init#k functions of package cmd (cobra/pflag registration)
 }
 
 type PathResult struct {
